@@ -14,18 +14,37 @@ theorem retry_update (S : List String) (t : Table K V) (when : Int) (k : K) (val
     (hv : ∀ c, c ∈ keys vals → c ∈ S) (ht : TableInv S t) (k' : K) :
     statusCell (lookup k' (updateRow (updateRow t when k vals) when k vals)) = statusCell (lookup k' (updateRow t when k vals)) ∧
     ∀ c, colCell c (lookup k' (updateRow (updateRow t when k vals) when k vals)) = colCell c (lookup k' (updateRow t when k vals)) := by
-  sorry
+  by_cases h : ∀ e, lookup k t = some e → e.row.deleted = true
+  · rw [updateRow_noop h, updateRow_noop h]; exact ⟨rfl, fun _ => rfl⟩
+  · obtain ⟨e, he, hl⟩ := exists_live_of_not h
+    obtain ⟨e1, he1, hl1⟩ := updateRow_live_entry he hl when vals
+    have h1 := local_update S t when k vals ht e he hl
+    have h2 := local_update S _ when k vals (tableInv_update S t when k vals hv ht) e1 he1 hl1
+    by_cases hk : k' = k
+    · subst hk
+      refine ⟨h2.1, fun c => ?_⟩
+      rw [h2.2.1 c, h1.2.1 c]
+      exact Sel.selOpt_absorb_right colLaws _ _
+    · rw [h2.2.2 k' hk]; exact ⟨rfl, fun _ => rfl⟩
 
 /-- re-executing a DELETE with the same write time leaves every cell unchanged -/
 theorem retry_delete (S : List String) (t : Table K V) (when : Int) (k : K) (ht : TableInv S t) (k' : K) :
     statusCell (lookup k' (deleteRow (deleteRow t when k) when k)) = statusCell (lookup k' (deleteRow t when k)) ∧
     ∀ c, colCell c (lookup k' (deleteRow (deleteRow t when k) when k)) = colCell c (lookup k' (deleteRow t when k)) := by
-  sorry
+  have h1 := local_delete S t when k ht
+  have h2 := local_delete S _ when k (tableInv_delete S t when k ht)
+  by_cases hk : k' = k
+  · subst hk
+    refine ⟨?_, fun c => h2.2.1 c⟩
+    rw [h2.1, h1.1]
+    exact Sel.selOpt_absorb_right statusLaws _ _
+  · rw [h2.2.2 k' hk]; exact ⟨rfl, fun _ => rfl⟩
 
 /-- re-executing an accepted INSERT is refused (primary key), so it changes nothing -/
 theorem retry_insert_refused (t t' : Table K V) (when : Int) (k : K) (vals : AList String V)
     (h : insertRow t when k vals = .ok t') : insertRow t' when k vals = .error .constraintPK := by
-  sorry
+  obtain ⟨e, he, hl⟩ := insertRow_ok_live h
+  exact (insert_refused_iff t' when k vals).2 ⟨e, he, Or.inl hl⟩
 
 /-- a retry merged from another writer: a version that is already included is absorbed
     (this is `Sel.evalAt_absorb` at every cell) -/
@@ -33,24 +52,37 @@ theorem retry_merged_absorbed (S : List String) (vs : Nat → Table K V) (F : Fa
     (p : Sel.Plan) (i : Nat) (hi : i ∈ p.leaves) (k : K) :
     statusCell (lookup k (evalTables vs (.node p (.leaf i)))) = statusCell (lookup k (evalTables vs p)) ∧
     ∀ c, colCell c (lookup k (evalTables vs (.node p (.leaf i)))) = colCell c (lookup k (evalTables vs p)) := by
-  sorry
+  apply C01_remerge_absorbs S vs F p (.leaf i) _ k
+  intro j hj
+  simp only [Sel.Plan.leaves, List.mem_singleton] at hj
+  subst hj; exact hi
 
 /-- an UPDATE whose write time is older than the column's latest assignment cannot undo it -/
 theorem older_update_cannot_undo (S : List String) (t : Table K V) (when : Int) (k : K) (vals : AList String V)
     (ht : TableInv S t) (c : String) (x : ACol V) (hx : colCell c (lookup k t) = some x) (hold : when < x.t) :
     colCell c (lookup k (updateRow t when k vals)) = some x := by
-  sorry
+  by_cases h : ∀ e, lookup k t = some e → e.row.deleted = true
+  · rw [updateRow_noop h]; exact hx
+  · obtain ⟨e, he, hl⟩ := exists_live_of_not h
+    rw [(local_update S t when k vals ht e he hl).2.1 c, hx]
+    cases lookup c vals with
+    | none => rfl
+    | some v =>
+      simp only [Option.map_some, Sel.selOpt_some]
+      rw [selCol_of_lt (show (ACol.mk v when).t < x.t from hold)]
 
 /-- a DELETE older than the row's latest INSERT/DELETE cannot undo it -/
 theorem older_delete_cannot_undo (S : List String) (t : Table K V) (when : Int) (k : K)
     (ht : TableInv S t) (s : Status) (hs : statusCell (lookup k t) = some s) (hold : when < s.dut) :
     statusCell (lookup k (deleteRow t when k)) = some s := by
-  sorry
+  rw [(local_delete S t when k ht).1, hs]
+  simp only [Sel.selOpt_some]
+  rw [selStatus_of_lt (show (Status.mk when true).dut < s.dut from hold)]
 
 /-- an INSERT older than the row's DELETE is refused -/
 theorem older_insert_refused (t : Table K V) (when : Int) (k : K) (vals : AList String V) (e : SEntry V)
     (he : lookup k t = some e) (hold : when < e.row.dut) :
-    insertRow t when k vals = .error .constraintPK := by
-  sorry
+    insertRow t when k vals = .error .constraintPK :=
+  (insert_refused_iff t when k vals).2 ⟨e, he, Or.inr hold⟩
 
 end S3db.Props.C15
